@@ -85,12 +85,11 @@ func TemplatesWithSkipSchemaValidation(linter *support.Linter, values map[string
 		return
 	}
 
-	cvals, err := chartutil.CoalesceValues(chart, values)
-	if err != nil {
-		return
-	}
-
-	valuesToRender, err := chartutil.ToRenderValuesWithSchemaValidation(chart, cvals, options, caps, skipSchemaValidation)
+	// The supplied values are coalesced with the chart's defaults by
+	// ToRenderValuesWithSchemaValidation, exactly as install and template do.
+	// Coalescing them here as well re-added defaults that a null override had
+	// removed, so lint validated (and rendered) other values than an install.
+	valuesToRender, err := chartutil.ToRenderValuesWithSchemaValidation(chart, values, options, caps, skipSchemaValidation)
 	if err != nil {
 		linter.RunLinterRule(support.ErrorSev, fpath, err)
 		return
